@@ -26,7 +26,13 @@ RULE = ("interleavings of registrations (accepted and rejected), read-only opera
         "unit pair with exponents 2, 3, -3, 4 asked in every order to depth 3 (quick) / 4 (thorough) over a 13-operation alphabet, and random): "
         "the model takes it as an uninterpreted function of the registry, the warm answer is compared with the answer of a database "
         "freshly built from the same registrations; plus families of 2-3 private databases alive at the same time that share names but "
-        "differ in units (every pair of questions addressed to either database with no registration in between, and random interleavings)")
+        "differ in units (every pair of questions addressed to either database with no registration in between, and random interleavings); "
+        "plus WHICH exception a failing query raises (the name of its class, never its text): the model takes it as an uninterpreted "
+        "function of (registry, query), for every failing query step the class raised after the history is compared with the class a "
+        "database freshly built from the same registrations raises; failing (category, unit) questions (category not registered, unit of "
+        "another quantity type, unknown unit, legacy spelling) asked two and three times in a row, again through each of 10 entry points "
+        "(CheckCategoryUnit, Scalar/ObtainQuantity, ObtainQuantity(OrderedDict), IsValid, CheckValueForCategory, GetValidUnits, GetValue, "
+        "+, *, + on derived operands), after unrelated questions, after a rejected and after an accepted registration, and random")
 EXHAUSTIVE = {"quick": False, "thorough": False}
 ASSUMPTIONS = reg.ASSUMPTIONS + ["a query is a closed expression over plain data (value objects created before a "
                                  "registration are snapshots: C07)",
@@ -426,6 +432,80 @@ def _random(ctx, salt, n, maxlen, extra=False):
         yield _history(ops, "random")
 
 
+# ------------------------------------------------------------------------------------ failing questions asked again
+# An answer that is an exception includes WHICH exception (the name of its class; never its text): the model takes it as
+# an uninterpreted function of (registry, query) - `error_detail_ignores_caches` - and the check compares the class the
+# warm database raises with the class a database freshly built from the same registrations raises.  A negative verdict
+# is memoised, so the interesting histories ask the same failing question again: at once, after unrelated questions,
+# through another entry point, and after a registration (which empties the memo tables).
+PREFIX_F = [reg._base("length", "m"), reg._unit("length", "cm"), reg._base("time", "s"), reg._cat("length", "length"),
+            reg._cat("depth", "length", valid_units=["m"]), reg._cat("time", "time")]
+FAIL_PAIRS = [("porosity", "m"),      # a category that is not registered, a registered unit
+              ("depth", "s"),         # a registered category, a unit of another quantity type
+              ("depth", "furlong"),   # a registered category, a unit nobody registered
+              ("nope", "furlong"),    # neither is known
+              ("time", "lbmole")]     # a legacy spelling of a unit that is not registered either
+
+
+def _fail_entry_points(c, u):
+    """the same (category, unit) question through every entry point that validates the pair"""
+    return [dict(q="check", c=c, u=u),                                  # db.CheckCategoryUnit
+            dict(q="create", c=c, u=u),                                 # Scalar(1.0, u, c) -> ObtainQuantity(u, c)
+            dict(q="derived", ents=[[c, u, 1]]),                        # ObtainQuantity(OrderedDict): the simple case
+            dict(q="isValid", c=c, u=u, x=1.0),                         # Scalar(x, u, c).IsValid()
+            dict(q="checkValueFor", c=c, u=u, x=1.0),                   # db.CheckValueForCategory
+            dict(q="objValidUnits", c=c, u=u),
+            dict(q="getValue", c=c, u=u, v="m", x=1.0),
+            dict(q="add", c1="length", u1="m", c2=c, u2=u, x=1.0, y=2.0),
+            dict(q="mul", c1=c, u1=u, c2="length", u2="m", x=1.0, y=2.0),
+            dict(q="sumd", f="add", ents=[[c, u, 1], ["length", "m", 1]], ents2=[["length", "m", 1], [c, u, 1]], x=1.0, y=2.0)]
+
+
+FAIL_OTHER = [dict(q="createU", u="furlong"), dict(q="createC", c="porosity"), dict(q="convert", cq="porosity", u="m", v="cm", x=1.0),
+              dict(q="convert", cq="depth", u="m", v="s", x=1.0), dict(q="catInfo", c="porosity"), dict(q="validUnits", c="nope"),
+              dict(q="checkQtUnit", qt="length", u="s"), dict(q="info", qt="length", u="furlong", fu=False),
+              dict(q="unitName", qt="nope", u="m"), dict(q="findUnitCase", c="depth", u="M")]
+UNRELATED = [dict(q="check", c="length", u="m"), dict(q="create", c="length", u="cm"), dict(q="allUnits"),
+             dict(q="convert", cq="length", u="m", v="cm", x=2.0), dict(q="validUnits", c="depth"),
+             reg._cat("depth", "nope"),                                   # a rejected registration: the memo tables stay
+             dict(q="createU", u="cm")]
+RESETS = [reg._unit("time", "min"), reg._cat("depth", "length", override=True, min_value=0.0)]   # accepted: the tables are emptied
+
+
+def _failing_again(ctx, salt, n_random):
+    for c, u in FAIL_PAIRS:
+        eps = _fail_entry_points(c, u)
+        for f in eps:
+            yield _history(PREFIX_F + [f, f, f], "failing-again")                      # twice (thrice) in a row
+            for g in eps:
+                if g is not f:
+                    yield _history(PREFIX_F + [f, g, f], "failing-again")              # ... and through another entry point
+            for o in UNRELATED:
+                yield _history(PREFIX_F + [f, o, f], "failing-again")                  # ... after an unrelated question
+            for r in RESETS:
+                yield _history(PREFIX_F + [f, f, r, f, f], "failing-again")            # ... after a registration
+    for f in FAIL_OTHER:
+        yield _history(PREFIX_F + [f, f, UNRELATED[0], f, RESETS[0], f, f], "failing-again")
+    rng = ctx.fresh_rng("C15fa" + salt)
+    every = [f for c, u in FAIL_PAIRS for f in _fail_entry_points(c, u)] + FAIL_OTHER
+    for _ in range(n_random):
+        ops = [o for o in PREFIX_F if rng.random() < 0.9]
+        asked = [rng.choice(every) for _ in range(rng.randint(1, 3))]
+        for _ in range(rng.randint(3, 12)):
+            r = rng.random()
+            if r < 0.55:
+                ops.append(dict(rng.choice(asked)))
+            elif r < 0.7:
+                ops.append(dict(rng.choice(every)))
+            elif r < 0.85:
+                ops.append(dict(rng.choice(UNRELATED)))
+            elif r < 0.93:
+                ops.append(dict(rng.choice(RESETS + PREFIX_F)))
+            else:
+                ops.append(_rnd_query(rng, ["m", "cm", "s"], ["length", "depth", "time", "porosity"]))
+        yield _history(ops, "failing-again-random")
+
+
 def _exhaustive(depth, prefixes=(PREFIX, PREFIX2), n=None):
     for pre in prefixes:
         for d in range(1, depth + 1):
@@ -443,6 +523,7 @@ def cases(ctx):
         yield from _exhaustive_a(3)
         yield from _arith_random(ctx, "q", 300)
         yield from _family_cases(ctx, "q", 2, 200)
+        yield from _failing_again(ctx, "q", 150)
     else:
         yield from _exhaustive(4, (PREFIX,), N_CORE)
         yield from _exhaustive(3, (PREFIX2, PREFIX3))
@@ -450,6 +531,7 @@ def cases(ctx):
         yield from _exhaustive_a(4)
         yield from _arith_random(ctx, "t", 4000)
         yield from _family_cases(ctx, "t", 3, 3000)
+        yield from _failing_again(ctx, "t", 3000)
 
 
 def model_line(c):
@@ -498,9 +580,24 @@ def _fresh_answer(regs, op):
     try:
         for r in regs:
             rc.apply_reg(fresh, r)
-        return rc.ask(fresh, op) if "q" in op else rc.apply_reg(fresh, op)
+        return rc.ask(fresh, op, detail=True) if "q" in op else rc.apply_reg(fresh, op)
     finally:
         UnitDatabase.PopSingleton()
+
+
+_FRESH_FAILURES = {}
+
+
+def _fresh_failure(regs, op):
+    """`_fresh_answer` for a failing query of the correspondence leg.  Each evaluation builds its own new database, so
+    the answer is a function of (registrations, query): evaluated once per distinct pair (the exhaustive families ask the
+    same failing question after the same registrations many thousand times)."""
+    key = repr((regs, op))
+    if key not in _FRESH_FAILURES:
+        if len(_FRESH_FAILURES) > 200000:
+            _FRESH_FAILURES.clear()
+        _FRESH_FAILURES[key] = _fresh_answer(regs, op)
+    return _FRESH_FAILURES[key]
 
 
 def _run(ops, flags=True):
@@ -524,7 +621,7 @@ def _run_n(ops, n, flags=True):
         before = [rc.snapshot(d) for d in dbs] if flags else None
         UnitDatabase.PushSingleton(dbs[i])
         try:
-            o = rc.ask(dbs[i], op) if "q" in op else rc.apply_reg(dbs[i], op)
+            o = rc.ask(dbs[i], op, detail=True) if "q" in op else rc.apply_reg(dbs[i], op)
         finally:
             UnitDatabase.PopSingleton()
         if flags:
@@ -534,6 +631,10 @@ def _run_n(ops, n, flags=True):
                 o["others"] = any(after[j] != before[j] for j in range(n) if j != i)
         if op.get("q") == "arith":
             o["fresh"] = _fresh_answer(regs[i], op)
+        elif "q" in op and "err" in o:
+            # the model's meaning of WHICH exception a failing query raises: what a database freshly built from the
+            # registrations accepted so far raises
+            o["fresh"] = _fresh_failure(regs[i], op)
         if "q" not in op and "err" not in o:
             regs[i].append(op)
         outs.append(o)
@@ -552,6 +653,9 @@ def _count(ctx, ops, outs, name="steps"):
     for op, o in zip(ops, outs):
         key = (op["q"] if "q" in op else "Add" + op["k"]) + ("/" + o["err"] if "err" in o else "/ok")
         n[key] = n.get(key, 0) + 1
+        if "cls" in o:
+            m = ctx.notes.setdefault("exception classes of failing queries (warm = fresh compared)", {})
+            m[o["cls"]] = m.get(o["cls"], 0) + 1
 
 
 def impl(c, ctx):
@@ -581,6 +685,16 @@ def _agree_steps(ops, iouts, mouts):
             why = None
         elif "q" in op:
             why = rc.cmp_answer(op, a, b, None)
+            if not why and "err" in a:
+                # WHICH exception: the model says "the one a database built from this registry raises" (an uninterpreted
+                # function of (registry, query): `error_detail_ignores_caches`); evaluated on the real code
+                if b.get("detail") != "fresh":
+                    why = "a failing query: model gives no failure detail (%s)" % b
+                elif a.get("cls") != a["fresh"].get("cls") or a["err"] != a["fresh"].get("err"):
+                    why = "raises %s after the history, %s on a fresh database built from the same registrations" % (
+                        a.get("cls"), a["fresh"].get("cls") or a["fresh"])
+            elif not why and b.get("detail") is not None:
+                why = "model reports a failure detail for an answer that is not a failure"
         else:
             why = rc.cmp_reg_out(a, b)
         if why:
@@ -673,7 +787,7 @@ def _check_n(ops, n):
         before = [rc.snapshot(d) for d in dbs]
         UnitDatabase.PushSingleton(dbs[i])
         try:
-            o = rc.ask(dbs[i], op) if "q" in op else rc.apply_reg(dbs[i], op)
+            o = rc.ask(dbs[i], op, detail=True) if "q" in op else rc.apply_reg(dbs[i], op)
         finally:
             UnitDatabase.PopSingleton()
         after = [rc.snapshot(d) for d in dbs]
@@ -687,6 +801,7 @@ def _check_n(ops, n):
             return dict(clause="an operation on one unit database changed what another unit database reports", step=step,
                         call=shown[step], history=shown[: step + 1])
         # the same operation on a fresh database built from the registrations accepted so far
+        # (an answer that is an exception includes WHICH exception: `cls`, the name of its class; never its text)
         o2 = _fresh_answer(regs[i], op)
         if o != o2 and not _near(o, o2):
             return dict(clause="an operation answers differently after a history of other operations than on a "
@@ -744,6 +859,7 @@ def _directed():
 
 def search(ctx):
     yield from _directed()
+    yield from _failing_again(ctx, "s", 100)
     yield from _exhaustive_a(2)
     yield from _family_cases(ctx, "s", 2, 100)
     yield from _arith_random(ctx, "s", 200)
